@@ -305,16 +305,22 @@ type harness struct{}
 
 func (harness) Property() string { return "C17" }
 func (harness) Specs(tier string) []seqmc.Spec {
-	fullMemory = tier == "thorough"
-	ops := universe(false)
-	var names []string
-	for _, o := range ops {
-		names = append(names, o.name)
+	mk := func(label string, ops []loadOp, full bool) []seqmc.Spec {
+		var names []string
+		for _, o := range ops {
+			names = append(names, o.name)
+		}
+		return []seqmc.Spec{
+			{Name: "from NewConfig " + label + " (closure)", Ops: names, Depth: 30, New: func() seqmc.Sys { fullMemory = full; return newSys(ops, false) }},
+			{Name: "from NewConfigWithBase " + label + " (closure)", Ops: names, Depth: 30, New: func() seqmc.Sys { fullMemory = full; return newSys(ops, true) }},
+		}
 	}
-	return []seqmc.Spec{
-		{Name: "from NewConfig (closure)", Ops: names, Depth: 30, New: func() seqmc.Sys { return newSys(ops, false) }},
-		{Name: "from NewConfigWithBase (closure)", Ops: names, Depth: 30, New: func() seqmc.Sys { return newSys(ops, true) }},
+	if tier == "thorough" {
+		// every (validity, revision relation) class of rejected loads remembered on
+		// the 2-target universe; the 3-target universe with the quick memory
+		return append(mk("2 targets, full rejected-load memory", universe(false), true), mk("3 targets", universe(true), false)...)
 	}
+	return mk("2 targets", universe(false), false)
 }
 
 func main() { seqmc.Main(harness{}) }
